@@ -33,7 +33,7 @@ fi
 if [ "$what" = all ] || [ "$what" = miri ]; then
     # one Miri process needs 5-10 minutes before its first step() (iced-x86 builds its decoder/encoder tables under
     # the interpreter); after that a case costs 10-20 s. So: 16 parallel shards, each long enough to amortise the start.
-    case "$prop" in C19) dper=24;; C08) dper=40;; *) dper=100;; esac
+    case "$prop" in C19) dper=24;; C08) dper=8;; *) dper=100;; esac
     shards=${AXMON_MIRI_SHARDS:-16}; per=${AXMON_MIRI_CASES:-$dper}
     logdir="$here/replay/$prop"; mkdir -p "$logdir"
     export MIRIFLAGS="-Zmiri-tree-borrows -Zmiri-permissive-provenance -Zmiri-ignore-leaks -Zmiri-disable-isolation"
